@@ -298,8 +298,9 @@ def main():
     import translate_effects
     import translate_durtext
     import translate_code
+    import translate_code3
     for g in (translate_grammar.gen_grammar, translate_cache.gen_cache_table, translate_effects.gen_effects,
-              translate_durtext.gen_durtext, translate_code.gen_code):
+              translate_durtext.gen_durtext, translate_code.gen_code, translate_code3.gen_code3):
         if g not in GENERATORS:
             GENERATORS.append(g)
     changed = [g.__name__ for g in GENERATORS if g()]
